@@ -14,6 +14,7 @@ package vtime
 
 import (
 	"bytes"
+	"os"
 	"runtime"
 	"sort"
 	"sync"
@@ -259,12 +260,15 @@ func deliverTick(e *event, at time.Time, wait time.Duration) {
 // to its next blocking point.  It reports whether that state was reached.
 func Quiesce(max time.Duration) bool {
 	deadline := time.Now().Add(max)
-	buf := make([]byte, 1<<16)
+	qmu.Lock()
+	defer qmu.Unlock()
+	buf := qbuf
 	stable := 0
 	for {
 		n := runtime.Stack(buf, true)
 		if n == len(buf) {
 			buf = make([]byte, 2*len(buf))
+			qbuf = buf // the next call starts with a buffer that is large enough
 			continue
 		}
 		if othersBlocked(buf[:n]) {
@@ -277,6 +281,13 @@ func Quiesce(max time.Duration) bool {
 		}
 		if time.Now().After(deadline) {
 			quiesceMisses.Add(1)
+			if f := os.Getenv("VTIME_QDEBUG"); f != "" {
+				if fh, err := os.OpenFile(f, os.O_APPEND|os.O_CREATE|os.O_WRONLY, 0o644); err == nil {
+					fh.Write(buf[:n])
+					fh.WriteString("\n=====\n")
+					fh.Close()
+				}
+			}
 			return false
 		}
 		runtime.Gosched()
@@ -284,6 +295,12 @@ func Quiesce(max time.Duration) bool {
 }
 
 var quiesceMisses atomic.Int64
+
+// the dump buffer is kept between calls (a process with thousands of parked goroutines needs megabytes)
+var (
+	qmu  sync.Mutex
+	qbuf = make([]byte, 1<<16)
+)
 
 // QuiesceMisses counts the waits for quiescence that ran out of time.
 func QuiesceMisses() int64 { return quiesceMisses.Load() }
